@@ -336,6 +336,7 @@ func load(T types.Type, addr *value) value {
 		}
 		return a
 	default:
+		lsAccess(addr, false)
 		return *addr
 	}
 }
@@ -356,6 +357,7 @@ func store(T types.Type, addr *value, v value) {
 			store(T.Elem(), &lhs[i], rhs[i])
 		}
 	default:
+		lsAccess(addr, true)
 		*addr = v
 	}
 }
